@@ -130,6 +130,7 @@ func runDubbo(c *hx.Ctx) {
 		id64 := pickID64(r)
 		dec, enc, out := forward(proto, input, id64, ops)
 		emitEnv(c, "dubbo", "dubbo", fmt.Sprint(b2i(svcOK)), input, id64, ops, dec, enc, out)
+		maybeReencm(c, proto, "dubbo", fmt.Sprint(b2i(svcOK)), input, ops, dec)
 	}
 }
 
@@ -243,6 +244,7 @@ func runThrift(c *hx.Ctx) {
 		id64 := pickID64(r)
 		dec, enc, out := forward(proto, input, id64, ops)
 		emitEnv(c, "thrift", "thrift", fmt.Sprint(b2i(msgOK)), input, id64, ops, dec, enc, out)
+		maybeReencm(c, proto, "thrift", fmt.Sprint(b2i(msgOK)), input, ops, dec)
 	}
 }
 
@@ -405,6 +407,7 @@ func runTars(c *hx.Ctx) {
 		id64 := pickID64(r)
 		dec, enc, out := forward(proto, input, id64, ops)
 		emitEnv(c, "tars", head, "1 "+fields, input, id64, ops, dec, enc, out)
+		maybeReencm(c, proto, head, "1 "+fields, input, ops, dec)
 	}
 	// announced total length out of TarsGo's accepted range: never a frame
 	for i := 0; i < c.N(40, 400); i++ {
